@@ -649,7 +649,22 @@ pub fn build_fast_check_type_graph<'a>(
       }
     } else {
       // use the items from the cache
+      let had_diagnostics =
+        package.cache_items.iter().any(|(_, result)| result.is_err());
       final_result.extend(package.cache_items);
+      if had_diagnostics {
+        // As when the package is analyzed, every entrypoint carries the
+        // diagnostics: the cached modules only go as far as the first
+        // diagnostic, so an entrypoint may not be among them.
+        for entrypoint in &package.entrypoints {
+          final_result.push((
+            entrypoint.clone(),
+            Err(vec![FastCheckDiagnostic::Cached {
+              specifier: entrypoint.clone(),
+            }]),
+          ));
+        }
+      }
     }
 
     if !errors.is_empty() {
